@@ -25,12 +25,12 @@ Fixpoint suffixb (suf s : string) : bool :=
 Definition date_lit (days : list Z) (s : string) : expr :=
   match find (fun d => String.eqb (date_string d) s) days with Some d => DateV d | None => StrV s end.
 
-(* bitShiftLeft(c0, 0) + bitShiftLeft(c1, 1) + ... : the conditions, when the indexes are 0,1,2,... *)
+(* bitShiftLeft(toUInt64(c0), 0) + bitShiftLeft(toUInt64(c1), 1) + ... : the conditions, when the indexes are 0,1,2,... *)
 Fixpoint bitset_conds (parts : list expr) (i : Z) : option (list expr) :=
   match parts with
   | [] => Some []
-  | Fn name [c; IntV k] :: r =>
-    if String.eqb name "bitShiftLeft" && Z.eqb k i then
+  | Fn name [Fn wide [c]; IntV k] :: r =>
+    if String.eqb name "bitShiftLeft" && String.eqb wide "toUInt64" && Z.eqb k i then
       match bitset_conds r (i + 1) with Some cs => Some (c :: cs) | None => None end
     else None
   | _ => None
